@@ -51,6 +51,7 @@ MUTANTS = {
     "r18": ("C18", [("revert", "f2168a3")]), "r14": ("C14", [("revert", "001e42e")]), "r10": ("C10", [("revert", "001e42e")]), "r18b": ("C18", [("revert", "612b202")]), "r18c": ("C17", [("revert", "612b202")]), "r16": ("C16", [("revert", "b1af53e")]), "r11py": ("C11", [("revert", "bf116ff")]),
     "r06": ("C06", [("revert", "462a8cb"), ("revert", "dbf66b8")]), "r06c": ("C06", [("revert", "462a8cb")]), "r05": ("C05", [("revert", "f6085d3")]), "r11c": ("C11", [("revert", "eb449ba")]),
     "r06b": ("C05", [("revert", "462a8cb"), ("revert", "dbf66b8")]),
+    "r11i": ("C11", [("revert", "fae71fe")]),
     "r02e": ("C02", [("revert", "0ae5b82")]), "r05e": ("C05", [("revert", "0ae5b82")]),
     # extras
     "x17a": ("C17", [sub("verify.py", "        (len(implemented['positional']) < len(required['positional'])) and", "        (len(implemented['positional']) + 1 < len(required['positional'])) and")]),
